@@ -33,8 +33,8 @@ BUILT = {
             'reference semantics of the statement; histories to depth 3 (thorough 4) with included files that carry stray or balanced '
             'directives of their own; the comparison-operator product. Full tree, stateless re-execution; every explored transition is an execution '
             'of the implementation.',
-            'Reference model mc/refasm.py. Not judged: #else/#elif after #else, conditions on undefined symbols (requirement '
-            'documents contradict each other), chains open at end of file. #mute is a counter as pinned by the repository tests. '
+            'Reference model mc/refasm.py. Not judged: #else/#elif after #else, chains open at end of file. A condition on an undefined symbol '
+            '(requirement documents contradict each other) is judged under every permitted reading (true / false / error). #mute is a counter as pinned by the repository tests. '
             'Candidate violations are confirmed through the real CLI.',
             'DESIGN.md 3/C08'),
     'C02': ('model_checking',
@@ -131,7 +131,8 @@ BUILT = {
             'combination and a disallowed pair x pairs of 8 texts, variants using one operand set in both slots with an asymmetric '
             'disallowed pair, explicit combinations with an empty operand, and three-variant definitions; every variant has its own opcode '
             'and every alternative its own code so the image names the choice; expected = first accepting variant by the stated '
-            'priority, or rejection; statements accepted one by one must be encoded the same way in sequence.',
+            'priority, or rejection; statements accepted one by one must be encoded the same way in sequence; the same definition with '
+            'its operand ids respelled must encode every statement alike.',
             'Reference matcher in mc/props/c13.py over text categories known by construction. Sets with two numeric-like alternatives '
             'are not generated (the statement does not order them). Fully unmatched statements are thinned to one instruction per group.',
             'DESIGN.md 3/C13'),
